@@ -5,7 +5,7 @@ Encoding of an argument by declared type (all integers on one line):
   abstract interface → see ABS_PARSERS of the specs | object → the arguments of its (translated) constructor
 Answer: `OK <canonical value>` / `ERR <PythonExceptionName>` (canonical: py2lean_selftest.canon)."""
 from py2lean_types import (TInt, TBool, TStr, TNone, TRange, TErased, TList, TOpt, TTuple, TDict, TObj, TAbs, TExc,
-                           TUnion, TVar, THet, resolve, proj)
+                           TUnion, TVar, THet, TBuilder, resolve, proj)
 
 
 def ty_json(t):
@@ -40,6 +40,8 @@ def ty_json(t):
         return {"k": "union", "a": ty_json(t.a), "b": ty_json(t.b)}
     if isinstance(t, THet):
         return {"k": "het", "e": ty_json(t.elem), "tails": [ty_json(x) for x in t.tails]}
+    if isinstance(t, TBuilder):
+        return {"k": "builder", "cls": t.cls, "ctor": ty_json(t.ctor_ty()), "cmd": t.cmd, "args": ty_json(t.cmd_ty())}
     raise ValueError(t)
 
 
@@ -102,6 +104,8 @@ def shower(t, x, reg):
         return '("(" ++ ' + ' ++ "," ++ '.join(shower(e, proj(x, i, n), reg) for i, e in enumerate(t.elems)) + ' ++ ")")'
     if isinstance(t, THet):
         return shower(TTuple([TList(t.elem)] + t.tails), x, reg)
+    if isinstance(t, TBuilder):
+        return shower(TTuple([t.ctor_ty(), TList(t.cmd_ty())]), x, reg)
     if isinstance(t, TDict):
         return "(GenUtil.showList (fun z => {} ++ \":\" ++ {}) {})".format(shower(t.k, "z.1", reg), shower(t.v, "z.2", reg), x)
     if isinstance(t, TUnion):
